@@ -125,12 +125,12 @@ theorem C19_refusals (dev : Dev) (st : SState) (msg : Req) :
         l.subs.all (fun s => subTarget s == []) = true →
         process dev st msg = ({ req := some msg, treqs := [] }, [], some .noTarget)) := by
   refine ⟨?_, ?_, ?_, ?_⟩
-  · intro h1 h2; simp [process, h1, h2]
+  · intro h1 h2; simp [process_eq, processHand, h1, h2]
   · intro h1 h2
     have : isSub msg = false := by
       cases msg with | mk b t => cases b <;> simp_all [isSub, isPoll]
-    simp [process, h1, h2, this]
-  · intro h1 h2; simp [process, h1, h2]
+    simp [process_eq, processHand, h1, h2, this]
+  · intro h1 h2; simp [process_eq, processHand, h1, h2]
   · intro top l hmsg hreq hp hall
     subst hmsg
     have hn : targetsOf l.subs = [] := by
@@ -142,14 +142,14 @@ theorem C19_refusals (dev : Dev) (st : SState) (msg : Req) :
         have := List.all_eq_true.mp hall s hs
         simp only [beq_iff_eq] at this
         exact absurd (hst ▸ this) hne
-    simp [process, isSub, isPoll, hreq, split_closed, hp, hn]
+    simp [process_eq, processHand, isSub, isPoll, hreq, split_closed, hp, hn]
 
 /-- An accepted subscription is forwarded to exactly the connected targets of its split, each
     with its own request, once. -/
 theorem C19_forward_exact (dev : Dev) (msg : Req) (m : TReqs) (hsub : isSub msg = true)
     (hs : split msg = .ok (.ok m)) :
     process dev {} msg = ({ req := some msg, treqs := m }, m.flatMap (forward dev), none) := by
-  simp [process, hsub, hs, isPoll_of_isSub msg hsub]
+  simp [process_eq, processHand, hsub, hs, isPoll_of_isSub msg hsub]
 
 /-- What one target's forwarding consists of: nothing at all when the target has no connection
     (the error is discarded — nobody is told); otherwise the subscription followed by the target's
@@ -186,7 +186,7 @@ theorem C19_poll_all (dev : Dev) (st : SState) (msg : Req) (hp : isPoll msg = tr
     cases msg with | mk b t => cases b <;> simp_all [isSub, isPoll]
   have hnone : st.req.isNone = false := by
     cases h : st.req <;> simp_all
-  refine ⟨by simp [process, hp, hsub, hnone], ?_⟩
+  refine ⟨by simp [process_eq, processHand, hp, hsub, hnone], ?_⟩
   intro t
   simp only [List.mem_flatMap, List.mem_map]
   constructor
@@ -230,16 +230,16 @@ theorem C19_stream (dev : Dev) (evs : List Event) :
       · simp only [hs, if_true]
         have hpl := isPoll_of_isSub m0 hs
         cases hsp : split m0 with
-        | error p => simp [run, process, hs, hsp, hpl]
+        | error p => simp [run, process_eq, processHand, hs, hsp, hpl]
         | ok res =>
           cases res with
-          | error e => simp [run, process, hs, hsp, hpl]
-          | ok m => simp [run, process, hs, hsp, hpl, run_subscribed]
+          | error e => simp [run, process_eq, processHand, hs, hsp, hpl]
+          | ok m => simp [run, process_eq, processHand, hs, hsp, hpl, run_subscribed]
       · have hs' : isSub m0 = false := by simpa using hs
         by_cases hp : isPoll m0 = true
-        · simp [run, process, hs', hp]
+        · simp [run, process_eq, processHand, hs', hp]
         · have hp' : isPoll m0 = false := by simpa using hp
-          simp [run, process, hs', hp']
+          simp [run, process_eq, processHand, hs', hp']
 
 /-- Forwarding (the part that holds): when every entry names a target (or the prefix does) and
     every named target is connected, an accepted subscription forwards every entry to the target
@@ -264,7 +264,7 @@ theorem C19_forward_all_partial (dev : Dev) (top : Fields) (l : SubList)
       | .ok (.ok m) => ({ req := some { body := .subscribe l, top := top }, treqs := m }, m.flatMap (forward dev), none)
       | .ok (.error e) => ({ req := some { body := .subscribe l, top := top }, treqs := [] }, [], some e)
       | .error _ => ({ req := some { body := .subscribe l, top := top }, treqs := [] }, [], some .noTarget) := by
-    simp [process, isSub, isPoll]
+    simp [process_eq, processHand, isSub, isPoll]
     rfl
   rw [hproc, split_closed] at h
   by_cases hp : getTarget l.pfx = []
